@@ -88,9 +88,12 @@ class BLOB(Element):
 
     def set_value_from_message(self, msg):
         blob_value = values.BLOB.from_base64(msg.value, msg.format)
-        assert (
-            int(msg.size) == blob_value.size
-        ), f"Blob size differs: {msg.size} declared vs {blob_value.size} measured"
+        # the declared size is the size of the uncompressed data: it says nothing
+        # about the length of a compressed (".z") payload
+        if not (msg.format or "").endswith(".z"):
+            assert (
+                int(msg.size) == blob_value.size
+            ), f"Blob size differs: {msg.size} declared vs {blob_value.size} measured"
 
         self._value = blob_value
 
